@@ -142,9 +142,15 @@ func busyWallets(e *WEnv) bool {
 }
 
 // startEnv runs the real NtfnsHandler.Start on e.wm: catch-up from synced-to to the node's tip,
-// initTaskChan, follower + worker goroutines; waits until the re-queued tasks are done; stops the
-// goroutines again (the harness drives the follower step by step).
-func startEnv(e *WEnv) error {
+// initTaskChan (re-queue of imports / removals), follower + worker goroutines.
+//
+//	runTasks = false (the boot of a history): the worker is held at its first database
+//	  transaction (faultDB gate), the goroutines are stopped again and the re-queued tasks are
+//	  checked against the stored wallet status; the work itself is then done by the history's own
+//	  importstep / removerun ops - on the schedule of the uninterrupted run, which makes the two runs
+//	  comparable (the worker's timing is not part of the property).
+//	runTasks = true (settle): the worker really runs the re-queued tasks to the end.
+func startEnv(e *WEnv, runTasks bool) error {
 	bc, err := blockchain.NewBlockchain(&blockchain.Config{DB: e.chainDb, StateBindingDb: state.NewDatabase(rawdb.NewMemoryDatabase()),
 		ChainParams: config.ChainParams, CachePath: filepath.Join(e.dir, fmt.Sprintf("blockcache-%d", time.Now().UnixNano()))})
 	if err != nil {
@@ -152,8 +158,37 @@ func startEnv(e *WEnv) error {
 	}
 	e.srv.bc = bc
 	defer func() { e.srv.bc = nil; closeBlockchain(bc) }()
+	fdb, _ := e.wdb.(*faultDB)
+	nBusy := 0
+	if !runTasks && fdb != nil {
+		for _, it := range strings.Split(e.Wallets(), ",") {
+			if i := strings.LastIndex(it, ":"); i >= 0 && it[i+1:] != "ready" {
+				nBusy++
+			}
+		}
+		fdb.armGate()
+		defer fdb.releaseGate()
+	}
 	if err := e.wm.VerifStartHandlerOnly(); err != nil {
 		return err
+	}
+	if !runTasks && fdb != nil {
+		var requeueErr error
+		if nBusy > 0 {
+			// the worker takes the first re-queued task and stops at its first transaction
+			deadline := time.Now().Add(3 * time.Second)
+			for fdb.waiters() == 0 && time.Now().Before(deadline) {
+				time.Sleep(100 * time.Microsecond)
+			}
+			_, _, queued := e.wm.VerifQueueLens()
+			if fdb.waiters() == 0 || queued+1 != nBusy {
+				requeueErr = fmt.Errorf("%d wallets with unfinished work, %d tasks queued again, worker waiting: %d", nBusy, queued, fdb.waiters())
+			}
+		}
+		fdb.releaseGate()
+		e.wm.VerifStopGoroutines()
+		e.wm.VerifDrainTasks()
+		return requeueErr
 	}
 	// wait for the re-queued background work; give up when nothing moves any more (an import that
 	// cannot proceed until the next tip notification re-queues itself in a tight loop)
@@ -176,30 +211,8 @@ func startEnv(e *WEnv) error {
 // running system) until no wallet is importing / being removed, so that its state can be compared
 // with a quiet state of the uninterrupted run.
 func settle(e *WEnv) {
-	for round := 0; round < 64 && busyWallets(e); round++ {
-		progress := false
-		for _, it := range strings.Split(e.Wallets(), ",") {
-			i := strings.LastIndex(it, ":")
-			if i < 0 {
-				continue
-			}
-			name, st := it[:i], it[i+1:]
-			id, ok := e.wallets[name]
-			if !ok {
-				continue
-			}
-			switch {
-			case strings.HasPrefix(st, "importing"):
-				if _, err := e.wm.VerifImportStep(id); err == nil {
-					progress = true
-				}
-			case st == "removing":
-				if err := e.wm.VerifRemoveRun(id); err == nil {
-					progress = true
-				}
-			}
-		}
-		if !progress {
+	for round := 0; round < 4 && busyWallets(e); round++ {
+		if err := startEnv(e, true); err != nil {
 			return
 		}
 	}
@@ -209,7 +222,7 @@ func bootEnv(e *WEnv) error {
 	if err := e.Restart(); err != nil {
 		return err
 	}
-	return startEnv(e)
+	return startEnv(e, false)
 }
 
 // ---------------------------------------------------------------- extra wallet-level ops
@@ -368,12 +381,13 @@ func isNodeOp(a []string) bool {
 }
 
 // newReplayEnv: the node as it was after history op `upto`, the wallet directory as forked.
-func newReplayEnv(hist [][]string, upto int, fork string, syms *symSnap, rec *recorder) (*WEnv, error) {
+func newReplayEnv(hist [][]string, outs []string, upto int, fork string, syms *symSnap, rec *recorder) (*WEnv, error) {
 	e := newChainEnv()
 	syms.install(e)
 	for j := 0; j <= upto && j < len(hist); j++ {
 		if isNodeOp(hist[j]) {
-			if out := ledOp(e, hist[j]); out != "ok" {
+			// the node op must go the way it went in the uninterrupted run (also when that was an error)
+			if out := ledOp(e, hist[j]); out != outs[j] {
 				e.Close()
 				return nil, fmt.Errorf("node replay failed at op %d (%s): %s", j, strings.Join(hist[j], " "), out)
 			}
@@ -386,6 +400,9 @@ func newReplayEnv(hist [][]string, upto int, fork string, syms *symSnap, rec *re
 	if rec != nil {
 		rec.e = e
 		e.wrapDB = rec.wrap
+	} else {
+		// no forks are taken of this replay, but Start still needs the gate of the wrapper
+		e.wrapDB = func(db mwdb.DB) mwdb.DB { return newFaultDB(db, e.wdbPath) }
 	}
 	if err := e.openWallet(false); err != nil {
 		e.Close()
@@ -565,12 +582,12 @@ func (x *crashExec) replay(f *forkRec, level, depth, mod int) string {
 		rec = &recorder{root: fmt.Sprintf("%s-l%d-%d", f.dir, level, f.k), curOp: f.op, inBoot: true}
 		defer os.RemoveAll(rec.root)
 	}
-	r, err := newReplayEnv(x.hist, f.op, f.dir, f.syms, rec)
+	r, err := newReplayEnv(x.hist, x.outs, f.op, f.dir, f.syms, rec)
 	if err != nil {
 		return fmt.Sprintf("k=%d op=%d replay-setup-failed", f.k, f.op)
 	}
 	defer closeEnv(r)
-	if err := startEnv(r); err != nil {
+	if err := startEnv(r, false); err != nil {
 		if verifDebug {
 			fmt.Fprintln(os.Stderr, "  [boot error]", err)
 		}
